@@ -16,7 +16,12 @@ what the fork created before anything can raise) are obligations of props/C11.v;
 (harness/c11_two.py, ORACLE-ONLY): histories over TWO real driver objects — B.commandeer(A) with either / both / none of
 them writing a channel_log file, closed through B only / A only / both in both orders (+ re-open); nested with-blocks of two
 connections with the inner one stalling / dropping / raising; Settings.NO_TERMINATE_ON_TIMEOUT — on SimDevice (sync and
-asyncio) and on real loopback sockets / a real pty child, with identity-tracked log file objects and /proc/self/fd."""
+asyncio) and on real loopback sockets / a real pty child, with identity-tracked log file objects and /proc/self/fd;
+(8) suite `ssh-open` (harness/c11_ssh.py, ORACLE-ONLY): every failure point of AsyncsshTransport.open() and
+ParamikoTransport.open() (connect / handshake / host key / authentication / open_session / pty / shell) on recording stub
+library objects and on in-process loopback ssh servers — whatever open() acquired before the failing step is released
+at the with-block exit / after close(), and the connection opens again; the pty-child suite also opens OVER an existing
+session (open, open; open, with; re-open after a device drop) and observes every child the connection ever started."""
 import asyncio
 import json
 import os
@@ -28,6 +33,7 @@ from . import common
 from . import c11_lib as L
 from . import c11_pty as P
 from . import c11_two as T
+from . import c11_ssh as S
 from .common import coq_bool, coq_bytes, coq_list
 
 LEVEL = "proof"
@@ -35,6 +41,7 @@ SOURCES = ["scrapli/driver/base/sync_driver.py", "scrapli/driver/base/async_driv
            "scrapli/channel/base_channel.py", "scrapli/decorators.py", "scrapli/settings.py",
            "scrapli/transport/plugins/telnet/transport.py", "scrapli/transport/plugins/asynctelnet/transport.py",
            "scrapli/transport/plugins/system/transport.py", "scrapli/transport/plugins/system/ptyprocess.py",
+           "scrapli/transport/plugins/asyncssh/transport.py", "scrapli/transport/plugins/paramiko/transport.py",
            "scrapli/transport/base/base_socket.py"] + \
           ["scrapli/driver/core/%s/%s_driver.py" % (p, s) for p in L.PLATFORMS for s in ("sync", "async")]
 
@@ -864,10 +871,13 @@ def real_oracle(sc, obs):
 def _pty_suite(rep, rng, thorough, tmpdir, corpus):
     import gc
     pdist = {"histories": 0, "sessions": 0, "release_points": 0, "release_points_after_raise": 0,
-             "closes_after_eof_was_read": 0, "exec_failures_after_fork": 0, "platforms": {}, "sessions_by_kind": {}}
+             "closes_after_eof_was_read": 0, "exec_failures_after_fork": 0, "opens_over_an_existing_session": 0,
+             "platforms": {}, "sessions_by_kind": {}}
     psc = [c["scenario"] for c in corpus if c.get("suite") == "pty-child"]
     psc += P.fixed_scenarios(rng, thorough)
     psc += [P.gen_history(rng) for _ in range(40 if thorough else 2)]
+    import random
+    psc += P.over_scenarios(random.Random("c11-pty-over-%s" % rep.seed), thorough)   # own stream: the others do not move
     seen = set()
     import time
     t0 = time.time()
@@ -880,6 +890,11 @@ def _pty_suite(rep, rng, thorough, tmpdir, corpus):
                 rep.sample({"pty_history": sc, "observed": [{k: o[k] for k in ("res", "children", "fds", "session_held")} for o in obs]})
             pdist["histories"] += 1
             pdist["platforms"][sc["kind"]] = pdist["platforms"].get(sc["kind"], 0) + 1
+            is_open = False
+            for op in sc["ops"]:
+                if op["op"] in ("open", "with") and is_open:
+                    pdist["opens_over_an_existing_session"] += 1
+                is_open = op["op"] == "open" or (is_open and op["op"] == "operate")
             for k in P.classify(sc, obs):
                 pdist["sessions"] += 1
                 pdist["sessions_by_kind"][k] = pdist["sessions_by_kind"].get(k, 0) + 1
@@ -894,11 +909,15 @@ def _pty_suite(rep, rng, thorough, tmpdir, corpus):
             rep.case(("pty", json.dumps(sc, sort_keys=True)), nontrivial=any(o["res"] != "ok" for o in obs))
             for (i, klass, what) in P.pty_oracle(sc, obs):
                 c = sc["ops"][i].get("child") or {}
-                key = (klass, sc["ops"][i]["op"], c.get("kind"))
-                if key in seen or len(seen) >= 4:
+                over, is_open = False, False
+                for op in sc["ops"][:i + 1]:       # a session replaced by another open() before this release point?
+                    over = over or (op["op"] in ("open", "with") and is_open)
+                    is_open = op["op"] == "open" or (is_open and op["op"] == "operate")
+                key = (klass, sc["ops"][i]["op"], c.get("kind"), over)
+                if key in seen or len(seen) >= 6:
                     continue
                 seen.add(key)
-                rep.violation("real system (pty) transport, %s driver: %s" % (sc["kind"], what),
+                rep.violation("real system (pty) transport, %s driver%s: %s" % (sc["kind"], " (a session was replaced by another open())" if over else "", what),
                               {"suite": "pty-child", "scenario": sc, "failing_op": i, "observed": obs,
                                "rerun": "./check C11 --replay <this file>"}, signature="c11-pty-%s" % klass)
     finally:
@@ -976,6 +995,77 @@ def _two_suite(rep, rng, thorough, tmpdir, corpus):
     dist["real"] = rdist
     dist["wall_s"] = round(time.time() - t0, 2)
     rep.coverage["two_connections"] = dist
+
+
+def _ssh_suite(rep, thorough, tmpdir, corpus):
+    """failure points of the library transports' open() (oracle-only, harness/c11_ssh.py); own generator stream"""
+    import logging
+    import random
+    import time
+    t0 = time.time()
+    rng = random.Random("c11-ssh-open-%s" % rep.seed)
+    dist = {"histories": 0, "by_world": {}, "by_failure_point": {}, "shapes": {}, "results": {}, "strict": 0,
+            "release_points": 0, "release_points_after_failed_open": 0, "library_objects_acquired": 0,
+            "acquired_before_the_failing_step": 0, "oracle_failures": 0}
+    scs = [c["scenario"] for c in corpus if c.get("suite") == "ssh-open"]
+    scs += S.stub_scenarios(rng, thorough)
+    loop_scs = S.loopback_scenarios(rng, thorough)
+    seen = set()
+    lb = None
+    plog = logging.getLogger("paramiko")
+    plevel = plog.level
+    plog.setLevel(logging.CRITICAL + 1)      # paramiko logs the failures we script to stderr (no handler configured)
+    try:
+        for sc in scs + loop_scs:
+            if sc["world"] == "loopback":
+                if len([k for k in seen if k[0] == "loopback"]) >= 3:
+                    continue                  # every leak costs a bounded wait: enough failing inputs
+                if lb is None:
+                    lb = S._mk_loopback()
+                obs = S.run_loopback(sc, tmpdir, lb)
+            else:
+                obs = S.run_stub(sc, tmpdir)
+            dist["histories"] += 1
+            dist["by_world"][sc["world"]] = dist["by_world"].get(sc["world"], 0) + 1
+            k = S.classify(sc)
+            dist["by_failure_point"][k] = dist["by_failure_point"].get(k, 0) + 1
+            dist["shapes"][sc["shape"]] = dist["shapes"].get(sc["shape"], 0) + 1
+            dist["strict"] += bool(sc.get("strict"))
+            failed = False
+            for op, o in zip(sc["ops"], obs):
+                k = "%s:%s" % (op["op"], o["res"])
+                dist["results"][k] = dist["results"].get(k, 0) + 1
+                if op["op"] in ("open", "with") and (op.get("fail") or op.get("server", "ok") != "ok"):
+                    failed = True
+                    dist["acquired_before_the_failing_step"] += len(o.get("acquired", []))
+                if op["op"] in ("close", "with"):
+                    dist["release_points"] += 1
+                    dist["release_points_after_failed_open"] += failed
+            if obs and "acquired" in obs[-1]:
+                dist["library_objects_acquired"] += len(obs[-1]["acquired"])
+            if dist["histories"] in (2, 30):
+                rep.sample({"ssh_open_history": sc, "observed": [{k: o.get(k) for k in ("res", "acquired", "unreleased", "calls",
+                                                                                         "server_still_holds", "client_sockets", "handles")} for o in obs]})
+            rep.case(("ssh-open", json.dumps(sc, sort_keys=True)), nontrivial=True)
+            for (i, klass, what) in S.oracle(sc, obs):
+                dist["oracle_failures"] += 1
+                if klass == "harness":
+                    rep.broken.append("ssh-open harness: %s (%s)" % (what, S.classify(sc)))
+                    continue
+                sig = S.signature(sc, i, klass)
+                key = (sc["world"], klass, sc["lib"], sc["ops"][i]["op"], sig)
+                if key in seen or len([k for k in seen if k[4] != S.SIG_PARAMIKO]) >= 6:
+                    continue
+                seen.add(key)
+                rep.violation("%s transport (%s), %s: %s" % (sc["lib"], sc["world"], S.classify(sc), what),
+                              {"suite": "ssh-open", "scenario": sc, "failing_op": i, "observed": obs,
+                               "rerun": "./check C11 --replay <this file>"}, signature=sig)
+    finally:
+        plog.setLevel(plevel)
+        if lb is not None:
+            lb.close()
+    dist["wall_s"] = round(time.time() - t0, 2)
+    rep.coverage["ssh_open"] = dist
 
 
 # ------------------------------------------------------------------------------------------------
@@ -1171,6 +1261,9 @@ def _explore(rep, rng, thorough, tmpdir, info, gen_ok):
     # ---- two connections: commandeer / nested with-blocks / NO_TERMINATE_ON_TIMEOUT ----
     _two_suite(rep, rng, thorough, tmpdir, corpus)
 
+    # ---- every failure point of the asyncssh / paramiko transports' open() ----
+    _ssh_suite(rep, thorough, tmpdir, corpus)
+
     # ---- a broken obligation / correspondence without a failing input so far: search harder ----
     if rep.broken and not rep.violations:
         found = 0
@@ -1208,7 +1301,19 @@ def _explore(rep, rng, thorough, tmpdir, info, gen_ok):
                 "ScrapliTimeout or another class / fault in the outer body after the inner block); NO_TERMINATE_ON_TIMEOUT (with-block stalling in body / on_open, "
                 "open-operate-close stalling in operate / on_close, nested): quick = 44 fixed + 120 random, thorough = 44 + 600; real = telnet / asynctelnet loopback "
                 "and a pty child (commandeer: 3 of 36 quick, all thorough; nested / no_terminate with a 0.4 s operation timeout: 1 of 4 quick, all thorough); "
-                "distinct = history JSON; non-trivial = commandeer history, or some fault fired / some op raised")
+                "distinct = history JSON; non-trivial = commandeer history, or some fault fired / some op raised.  "
+                "pty-child also opens OVER an existing session (own stream): open-operate-open-operate-close-close | open, with-block, close, with-block | "
+                "open(device goes away in the operation)-operate-open-operate-close | same carrying on with a with-block | stand-in exits before the prompt, open again | "
+                "open(device goes away)-operate-open-operate-open-operate-close | same ending in a with-block: "
+                "quick = one of the last two (a re-open after a drop AND an open over the live session in one history), thorough = all 7 x 6 platforms; random histories open / with over an open session too.  "
+                "ssh-open (own stream): per library (asyncssh, paramiko) every failure point of open() x exception class (asyncssh: connect refused / lost / timed out / "
+                "kex / host key, PermissionDenied, host key value mismatch / none (strict), open_session ChannelOpenError / ConnectionLost / BrokenPipeError / RuntimeError, "
+                "pty and shell request refused; paramiko: socket, start_client SSHException / EOFError / timeout, auth EOFError, open_session EOFError, get_pty / invoke_shell "
+                "SSHException / EOFError) x shape (with-block then healthy with-block | "
+                "open-close-close-open-operate-close | healthy open-operate-close, failing with-block, close, healthy with-block) on recording stubs: quick = first + one drawn class "
+                "per point x 2 shapes x one drawn driver (IOS-XE default hooks / generic), thorough = all x 3 shapes x both drivers; loopback ssh servers (password rejected, "
+                "session / pty / shell refused, disconnect at the session request, hang-up before the banner, nobody listening): quick = asyncssh session-refused (both shapes) + 2 drawn "
+                "+ 1 paramiko, thorough = all modes x 3 shapes; distinct = history JSON; every history has a failing open (non-trivial)")
 
 
 # ------------------------------------------------------------------------------------------------
@@ -1280,6 +1385,25 @@ def replay(path):
             bad = T.real_oracle(r["scenario"], obs)
             print("property FAILS on this input: %s" % bad if bad else "property holds on this input")
             return 1 if bad else 0
+        if r.get("suite") == "ssh-open":
+            sc = r["scenario"]
+            if sc["world"] == "loopback":
+                lb = S._mk_loopback()
+                try:
+                    obs = S.run_loopback(sc, tmpdir, lb)
+                finally:
+                    lb.close()
+            else:
+                obs = S.run_stub(sc, tmpdir)
+            for op, o in zip(sc["ops"], obs):
+                print("%-70s -> %-28s" % (json.dumps(op)[:70], o["res"]))
+                print("      " + "  ".join("%s=%s" % (k, o[k]) for k in ("acquired", "unreleased", "calls", "server_still_holds",
+                                                                         "client_sockets", "handles", "isalive", "threads") if k in o))
+            bad = [b for b in S.oracle(sc, obs)]
+            for (i, klass, what) in bad:
+                print("op %d: %s" % (i, what))
+            print("property FAILS on this input" if bad else "property holds on this input")
+            return 1 if bad else 0
         print("nothing to replay (no concrete input): %s" % r.get("what"))
         return 1
     finally:
@@ -1304,7 +1428,11 @@ MANIFEST = {
             "exec of the ssh binary leaves them owned and close() releases them (C11_pty_open_failure_released).  The full statement for the pty child is "
             "refuted (C11_pty_close_full_refuted: EOF read while the child still runs and ignores SIGHUP -> blocking waitpid).  Release of OS resources (fds, pty child, "
             "sockets, threads) is otherwise OBSERVED, not proved: partial.  Two connections (commandeer: B takes over A's transport and A's log handle; nested with-blocks; "
-            "Settings.NO_TERMINATE_ON_TIMEOUT across them) are NOT in the theorems: decided by an oracle on the real code only (suite two-conn).",
+            "Settings.NO_TERMINATE_ON_TIMEOUT across them) are NOT in the theorems: decided by an oracle on the real code only (suite two-conn).  "
+            "The library transports (asyncssh, paramiko) are NOT in the theorems either — the model's transport.open() is one step that acquires all or nothing: "
+            "that open() failing at ANY of its internal steps leaves nothing behind once the with-block is left / close() returned is decided by an oracle on the real "
+            "code (suite ssh-open).  A pty session REPLACED by another open() on the same object is outside the theorems (handle replacement) and decided by the "
+            "pty-child oracle on every child the connection ever started.",
     "note": "Proved of the model: ordering logic of the four driver methods (statement language: sequence / try-finally / try-except, Python "
             "semantics), decided for the generated programs by a verified abstract interpreter (lifecycle_ok, soundness proved). Section-free, axiom-free. "
             "Model assumptions (each confronted by the correspondence runs, not proved): transport.close()/channel.close() do not raise and release "
@@ -1327,7 +1455,21 @@ MANIFEST = {
             "/proc/self/fd, threads, after gc.collect() (8 histories quick, ~100 thorough). "
             "Observed only (partial): /proc/self/fd, child pids, threading.enumerate, handle attributes for SimDevice runs (every run) and for real "
             "sockets / a real pty child (6 scenarios quick, 24 thorough); in-channel authentication outcomes are modelled but not exercised (auth_bypass); "
-            "paramiko / asyncssh / ssh2 transports are not exercised (no server in the sandbox run). "
+            "ssh2 transport is not exercised (library not installed). "
+            "Suite ssh-open is ORACLE-ONLY (AsyncsshTransport.open()/close() and ParamikoTransport.open()/close() are not translated; the model assumption 'transport.close() "
+            "releases every handle the object owns' is what it confronts for these two plugins): real drivers (IOS-XE default hooks, generic) over (a) stub library objects patched "
+            "into the plugin modules (asyncssh plugin's `connect`; paramiko plugin's `Socket` and `_ParamikoTransport`) that record close()/abort() and fail at a chosen step with a chosen "
+            "exception class, a SimDevice behind healthy sessions — stub behaviour that is an assumption about the libraries: asyncssh.connect() hands nothing out when it raises; asyncssh "
+            "closes a channel whose pty / shell request was refused; a paramiko Transport whose handshake failed or whose session ended (EOFError, timeout) closes its socket itself, one whose "
+            "request was merely refused does not (both confirmed against the loopback servers); (b) in-process asyncssh.listen servers on 127.0.0.1 (background loop) that reject the password, refuse the "
+            "session channel / pty / shell, disconnect at the session request, hang up before the banner, or do not listen.  Oracle at every release point (with-block left, close() returned or raised): "
+            "every library object open() acquired has had close()/abort() called (or belongs to a closed parent) [stub]; every server has seen every accepted connection go away (event-driven wait, "
+            "2 s bound), no socket of this process is connected to a server port (/proc/net/tcp x /proc/self/fd), no thread left (asyncio executor workers ignored) [loopback]; no transport handle, "
+            "isalive() False; repeated close() raises at most a scrapli exception; the released connection opens again against a healthy device.  open() directly over a FAILED open without close() is "
+            "not generated for these transports (handle replacement, outside the quantifier).  Fixed finding c11-paramiko-failed-open-keeps-socket (ad24914; its histories are replayed every run from findings/ and the "
+            "generators cover that region again: paramiko host-key / authentication / open_session failures with the session still up). "
+            "Pty-child also opens over an existing session (never closed by the user): the unchanged tree releases the replaced session through PtyProcess.__del__ -> close() "
+            "(the gen obligation '__del__ -> self.close()' is what that rests on; observed after gc.collect()). "
             "Suite two-conn is ORACLE-ONLY (the model has ONE connection; commandeer() is not translated by gen_lifecycle; single-connection NO_TERMINATE_ON_TIMEOUT histories are "
             "ALSO in the model-compared lifecycle suite): "
             "what the unchanged commandeer() does was read from the source and is what the oracle's rule R2 relies on — B takes A's transport object; when A holds a log handle "
@@ -1340,5 +1482,6 @@ MANIFEST = {
             "Known finding c11-reopen-adopted-log (replayed every run, the generator keeps away): re-open of a commandeering connection without own channel_log after close().",
     "technique": "Coq: verified abstract interpretation of generated method bodies + case analysis over outcomes; vm_compute correspondence against "
                  "real drivers with fault injection at every read/write; exhaustive evaluation of the translated PtyProcess.close() over its finite "
-                 "state space; /proc observers (children incl. zombies, fds) on real pty children that exit by themselves or cannot be exec'd",
+                 "state space; /proc observers (children incl. zombies, fds) on real pty children that exit by themselves or cannot be exec'd; "
+                 "recording stub ssh libraries + in-process loopback ssh servers failing open() at every internal step",
 }
